@@ -600,6 +600,7 @@ class Ranges:
         sub = {}      # sub-path suffix -> interval
         subopt = {}
         eqs = []      # (suffix, path) equalities
+        fld_alias = []   # (suffix, path): the field is a copy of that path
         optv = None
         k = rv.k
         lty = self.place_ty(lhs)
@@ -733,6 +734,9 @@ class Ranges:
                     if so and so[0] == "p" and v is not None:
                         eqs.append((".%d" % i, so[1]))
                     if so and so[0] == "p":
+                        # `match (a, b, c) { (0, _, _) => .. }`: a test of the tuple's field is a test of the value copied into it
+                        fld_alias.append((".%d" % i, so[1]))
+                    if so and so[0] == "p":
                         for kk, vv in st.iv.items():
                             if kk.startswith(so[1]) and kk[len(so[1]):len(so[1]) + 1] in (".", "#", "@"):
                                 sub[".%d" % i + kk[len(so[1]):]] = vv
@@ -776,6 +780,9 @@ class Ranges:
             if "[*]" not in q:
                 st.rel.add((p + sfx, q, 0))
                 st.rel.add((q, p + sfx, 0))
+        for (sfx, q) in fld_alias:
+            if "[*]" not in q and "[*]" not in p:
+                st.org[p + sfx] = ("alias", q)
         if optv is not None:
             st.opt[p] = optv
         if org is not None:
